@@ -409,6 +409,33 @@ def scVaread (d : DCfg) (b : Bytes) : String :=
     | .error e => failS e
   s!"rd={rd} sk={sk} live=0"
 
+def scFsk (d : DCfg) (b : Bytes) : String :=
+  let arr := b.toArray
+  match fhRead arr 0 with
+  | .error e => s!"fh={failS e} pos=- live=0"
+  | .ok ((ma, mi), p) =>
+    match readTM d.cfg arr p with
+    | .error e => s!"fh=0:{ma}.{mi} tm={failS e} pos=- live=0"
+    | .ok (tm, p2) =>
+      let n := tm.cols.length
+      let r := readSlices d.cfg n (some (List.replicate n false)) arr (arr.size + 8) p2
+      let s := String.join (r.1.map (fun _ => " ts=0"))
+      let e := match r.2 with
+        | .tableEnd p => s!" ts=-1000 pos={p}"
+        | .failed e => s!" ts={failS e} pos=-"
+        | .fuel p => s!" ts=FUEL pos={p}"
+      s!"fh=0:{ma}.{mi} tm=0" ++ s ++ e ++ " live=0"
+
+def scOskip (d : DCfg) (tid : Nat) (b : Bytes) : String :=
+  let data := b.toArray
+  let rd := match readObj d.cfg tid data 0 with
+    | .ok (v, p) => s!"0@{p}:" ++ dumpObj d v
+    | .error e => failS e
+  let sk := match skipObj d.cfg tid data 0 with
+    | .ok (_, p) => s!"0@{p}"
+    | .error e => failS e
+  s!"rd={rd} sk={sk} live=0"
+
 def exS (r : Except Status α) : String := match r with | .ok _ => "0" | .error e => stI e
 
 partial def scMd (d : DCfg) : Tk String := do
@@ -626,6 +653,8 @@ partial def scenario (d : DCfg) : Tk String := do
   else if kind == "errstr" then do let c ← nxI; pure (errStrModel c)
   else if kind == "va" then scVa d
   else if kind == "varead" then do let b ← nxB; pure (scVaread d b)
+  else if kind == "fsk" then do let b ← nxB; pure (scFsk d b)
+  else if kind == "oskip" then do let t ← nxN; let b ← nxB; pure (scOskip d t b)
   else if kind == "md" then scMd d
   else if kind.startsWith "fa=" then scenario d
   else if kind == "rt" then scRt d 0
